@@ -45,14 +45,14 @@ def select(prop, tier):
     return out
 
 
-def run_one(prepared, name, timeout, extra_flags=()):
+def run_one(prepared, name, timeout, extra_flags=(), mem_gb=None):
     t0 = time.time()
     cmd = ['cargo', 'kani'] + KANI_FLAGS + list(extra_flags) + ['--harness', name]
     env = dict(os.environ, CARGO_NET_OFFLINE='true')
     import signal
     def limit():
         import resource
-        cap = int(os.environ.get('VERIF_KANI_MEM_GB', '14')) * (1 << 30)
+        cap = int(mem_gb or os.environ.get('VERIF_KANI_MEM_GB', '14')) * (1 << 30)
         resource.setrlimit(resource.RLIMIT_AS, (cap, cap))
     p = subprocess.Popen(cmd, cwd=prepared, stdout=subprocess.PIPE, stderr=subprocess.STDOUT, text=True, env=env, start_new_session=True, preexec_fn=limit)
     try:
@@ -125,11 +125,20 @@ def collect(prop, repo, scratch, tier, only=None):
         o.detail = 'prepared crate does not compile under Kani: ' + (b.stdout + b.stderr)[-2500:]
         return obls + [o], meta
     timeout = int(os.environ.get('VERIF_KANI_TIMEOUT', '480'))
-    with cf.ThreadPoolExecutor(max_workers=NJOBS) as ex:
-        futs = {ex.submit(run_one, prepared, h, timeout, () if g.get('no_restrict_vtable') else ('-Z', 'restrict-vtable')): (h, g) for h, g in todo}
-        for fu in cf.as_completed(futs):
-            h, g = futs[fu]
-            r = fu.result()
+    # heavy groups (`heavy = true`: several GB per job) run after the light ones, two at a time, with a larger memory cap
+    light = [(h, g) for h, g in todo if not g.get('heavy')]
+    heavy = [(h, g) for h, g in todo if g.get('heavy')]
+    results = []
+    for batch, workers in ((light, NJOBS), (heavy, int(os.environ.get('VERIF_KANI_HEAVY_JOBS', '2')))):
+        if not batch:
+            continue
+        with cf.ThreadPoolExecutor(max_workers=workers) as ex:
+            futs = {ex.submit(run_one, prepared, h, int(g.get('timeout', timeout)),
+                              () if g.get('no_restrict_vtable') else ('-Z', 'restrict-vtable'), g.get('mem_gb')): (h, g) for h, g in batch}
+            for fu in cf.as_completed(futs):
+                results.append((futs[fu], fu.result()))
+    if True:
+        for (h, g), r in results:
             o = Obl('%s.K.%s' % (prop, h), 'kani', 'kani/cbmc', g['props'], unit=g['name'], fn=h, bound=g.get('bound'), where=names.get(h))
             o.status, o.detail, o.seconds = r['status'], r['detail'], r['seconds']
             if o.status == 'failed':
